@@ -29,8 +29,14 @@ theorem C04_quoted_token (env : Env) (prev : Option Char) (s rest : Str) (h : re
   have hb := stringBody_escape s rest
   simp only [quoted, List.cons_append, List.append_assoc, List.singleton_append] at *
   unfold matchPattern
-  simp [Env.isDigit, Env.digit?, isAscii, isDigitA, hb, unescape_escape]
-  rw [h3]
+  simp only [Bool.false_eq_true, if_false, Env.isDigit, Env.digit?, isAscii, isDigitA]
+  have e : matchQuote ('"' :: (escape s ++ '"' :: rest)) (escape s ++ '"' :: rest) =
+      some { type := .string, value := .str s, text := '"' :: (escape s ++ ['"']), rest := rest } := by
+    have h3' : lit "\"\"\"".toList ('"' :: (escape s ++ '"' :: rest)) = none := h3
+    unfold matchQuote
+    simp only [h3', hb, unescape_escape]
+    rfl
+  simp [e]
 
 /-- non-vacuity: the continuation condition holds for the separators the emitter prints. -/
 example : ("\n===END===\n".toList).head? ≠ some '"' ∧ (",b]".toList).head? ≠ some '"' := by decide
